@@ -10,6 +10,18 @@ fn check(case: &Case) -> Outcome {
             if s.graft_rejected_high > 0 {
                 labels.push("graft_rejected_at_n_high");
             }
+            if s.graft_rejected_topic_high_below_default > 0 {
+                labels.push("graft_rejected_at_topic_n_high_below_default_n_high");
+            }
+            if s.graft_accepted_above_default_high > 0 {
+                labels.push("graft_accepted_above_default_n_high_below_topic_n_high");
+            }
+            if !case.cfg.topic_mesh.is_empty() {
+                labels.push("cfg_with_per_topic_mesh_params");
+            }
+            if s.hb_changed_topic_cfg_mesh > 0 {
+                labels.push("heartbeat_changed_mesh_of_topic_with_own_params");
+            }
             if s.graft_rejected_backoff > 0 {
                 labels.push("graft_rejected_backoff");
             }
@@ -37,7 +49,7 @@ pub fn run(ctx: &mut Ctx) {
     let max_ops = ctx.tier.sel(60, 90);
     ctx.check::<Case>(
         "histories",
-        "one behaviour (mesh_n_low 1..3, mesh_n 2..4, mesh_n_high 3..6, prune_backoff 1..20 s, scoring on 70%), 1..14 pool peers (floodsub / gossipsub 1.0-1.3, up to 3 connections each), 3 topics; <=60 ops: connect/disconnect, subscription/GRAFT/PRUNE RPCs as wire bytes, local (un)subscribe, explicit add/remove, application score, publish, heartbeat, clock advance; oracle after every step; non-trivial = >=1 GRAFT refused because the mesh was at mesh_n_high and >=1 heartbeat that changed a mesh",
+        "one behaviour (default and, with probability 0.4 per topic, topic-specific mesh parameter sets: mesh_n_low 1..3, mesh_n 2..4, mesh_n_high 3..6; the mesh_n_high bound asserted for a GRAFT is the one of its topic; prune_backoff 1..20 s, scoring on 70%), 1..14 pool peers (floodsub / gossipsub 1.0-1.3, up to 3 connections each), 3 topics; <=60 ops: connect/disconnect, subscription/GRAFT/PRUNE RPCs as wire bytes, local (un)subscribe, explicit add/remove, application score, publish, heartbeat, clock advance; oracle after every step; non-trivial = >=1 GRAFT refused because the mesh was at mesh_n_high and >=1 heartbeat that changed a mesh",
         ctx.n(20_000, 600_000),
         &|| case_strategy(max_ops, 20),
         &check,
